@@ -20,7 +20,7 @@ def make_obs(ctx):
         obs.append(Ob('add-q:ymd:%d-%d' % (lo, hi), H, 'h_add_q_ymd', dict(d, MMAX=48), units=UNITS, unwind=7,
                       group='add-q:ymd', bounds=dict(b, n='|n| <= 16 quarters')))
         obs.append(Ob('add-my:ymcw:%d-%d' % (lo, hi), H, 'h_add_m_ymcw', dict(d, MMAX=48), units=UNITS, unwind=7,
-                      group='add-my:ymcw', bounds=dict(b, n='|n| <= 48 months or years')))
+                      group='add-my:ymcw', bounds=dict(b, n='|n| <= 48 months or years; composition a+b with |a|,|b| <= 48')))
         obs.append(Ob('add-y:ywd:%d-%d' % (lo, hi), H, 'h_add_y_ywd', d, units=UNITS, unwind=2,
                       group='add-y:ywd', bounds=dict(b, n='every n with result year in range')))
         obs.append(Ob('add-y:yd:%d-%d' % (lo, hi), H, 'h_add_y_yd', d, units=UNITS, unwind=2,
